@@ -140,6 +140,7 @@ def concretise(case, fmt, rng):
         m["part"] = [seg(s) for s in m.pop("sym")]
     anchors = []
     pdf_turn = [rng.randrange(60)]
+    rtf_turn = [rng.randrange(96)]
     for a in case["anchors"]:
         cands = [{"mode": t["mode"], "abs": bool(t["abs"]), "segs": [seg(s) for s in t["segs"]], "to": t["to"]}
                  for t in a["cands"]]
@@ -155,22 +156,45 @@ def concretise(case, fmt, rng):
             forms = PDF_FILTERS["jpeg" if media[a["cands"][0]["to"] - 1]["kind"] == "jpeg" else "raw"]
             an["pfilter"] = forms[(pdf_turn[0] + len(anchors)) % len(forms)]
         if fmt == "rtf":
-            an["wrap"] = rng.choice([0, 0, 64, 128])
-            an["blipuid"] = rng.random() < 0.3
+            # \\pict header / hex dump layout: taken in turn so that every combination of (negative crop, scaling,
+            # blipuid) x (one line, 64, 128, 76 columns) x (LF, CRLF) is rendered many times per run
+            t = rtf_turn[0] + len(anchors)
+            an["wrap"] = [0, 64, 128, 76][t % 4]
+            an["crop"] = (t // 4) % 2 == 0
+            an["blipuid"] = (t // 8) % 2 == 1
+            an["scale"] = (t // 16) % 2 == 1
+            an["eol"] = "\r\n" if (t // 2) % 3 == 0 else "\n"
         anchors.append(an)
     nunits = 1 if fmt in SINGLE_UNIT else max([2] + [a["unit"] for a in anchors])
     if fmt in SINGLE_UNIT:
         for a in anchors:
             a["unit"] = 1
-    return {"fmt": fmt, "base": [seg(s) for s in case["base"]], "media": media, "anchors": anchors,
+    conc = {"fmt": fmt, "base": [seg(s) for s in case["base"]], "media": media, "anchors": anchors,
             "order": list(case["order"]), "nunits": nunits}
+    if fmt == "xlsx":
+        # per sheet: non-picture relationships (cell comments = vmlDrawing + comments, printerSettings, table) in a
+        # drawn order around the drawing relationship; every third sheet keeps the bare drawing relationship
+        conc["sheetrels"] = {}
+        for u in range(1, nunits + 1):
+            t = rng.randrange(12)
+            if t % 3 == 2:
+                continue
+            extras = [["vmlDrawing", "comments"], ["comments", "vmlDrawing"], ["vmlDrawing"], ["printerSettings", "vmlDrawing", "comments"],
+                      ["table", "vmlDrawing"], ["printerSettings"], ["vmlDrawing", "comments", "table"], ["table"]][t % 8]
+            cut = rng.randint(0, len(extras)) if t % 2 else len(extras)      # drawing relationship last (comments
+            conc["sheetrels"][u] = extras[:cut] + ["drawing"] + extras[cut:]  # came first) or somewhere in between
+    return conc
 
 
 def header(conc):
     return {"fmt": conc["fmt"], "base": conc["base"], "order": conc["order"],
+            **({"sheetrels": [[str(u)] + v for u, v in sorted(conc["sheetrels"].items())]} if conc.get("sheetrels") else {}),
             "media": [{"part": m["part"], "kind": m["kind"], "w": m["w"], "h": m["h"], "var": m["var"]} for m in conc["media"]],
             "anchors": [dict({"unit": a["unit"], "cands": a["cands"], "fw": a["fw"], "fh": a["fh"]},
-                             **({"pfilter": a["pfilter"]} if "pfilter" in a else {})) for a in conc["anchors"]]}
+                             **({"pfilter": a["pfilter"]} if "pfilter" in a else {}),
+                             **({"pict": f"wrap={a['wrap']} eol={'CRLF' if a['eol'] != chr(10) else 'LF'} crop={int(a['crop'])} "
+                                         f"scale={int(a['scale'])} blipuid={int(a['blipuid'])}"} if "wrap" in a else {}))
+                        for a in conc["anchors"]]}
 
 
 # ----------------------------------------------------------------------------- execution (worker side)
@@ -302,7 +326,9 @@ def describe(t, tv):
                              if x["mode"] == "inline" else ("/" if x["abs"] else "") + "/".join(x["segs"])) for x in a["cands"]])
                for a in c["anchors"]]
     media = [("/".join(m["part"]), m["kind"] + ":" + m.get("var", ""), m["w"], m["h"]) for m in c["media"]]
-    return (f"{what} of a generated {c['fmt']} document violates Prop_Images: anchors (unit, targets) {anchors} "
+    extra = (f" sheet relationships {c['sheetrels']};" if c.get("sheetrels") else "") + \
+            (f" pict layouts {[a['pict'] for a in c['anchors']]};" if any("pict" in a for a in c["anchors"]) else "")
+    return (f"{what} of a generated {c['fmt']} document violates Prop_Images:{extra} anchors (unit, targets) {anchors} "
             f"from base {'/'.join(c['base'])!r}, order {c['order']}, parts {media}; observed document view "
             f"{[(r['m'], r['e'], r['ct'], r['w'], r['h'], r['n'], r['u']) for r in evs[0]['D']]}; unit views "
             f"{[(u['n'], [r['n'] for r in u['imgs']]) for u in evs[1]['U']]}")
